@@ -551,7 +551,7 @@ impl Prop for C18 {
             }
         }
         for ty in ["REP", "PULL", "PUB", "ROUTER"] {
-            for k in 0..tier.pick(30, 300) {
+            for k in 0..tier.pick(30, 1200) {
                 let len = 10 + (k % 4) * 10;
                 v.push(json!({"kind": "seq", "ty": ty, "len": len, "seed": mix(seed ^ 0xC18 ^ (k as u64) << 4)}));
             }
